@@ -572,6 +572,25 @@ pub fn run(args: &Args) -> i32 {
             check_str(&mut rep, s);
             n += 1;
         }
+        // The string domain is unbounded, so beyond length 4 a dictionary has to stand in for
+        // enumeration: names under which other tools, containers and specifications know the
+        // same five media kinds and the three track kinds (ffmpeg / ffprobe codec names, sample
+        // entry codes, MIME subtypes, handler names, codec-string prefixes) and their case /
+        // separator variants. None of them is in the defining tables, so all must be rejected.
+        let dictionary = [
+            "mov_text", "tx3g", "text", "subt", "subtitle", "subtitles", "Subtitle", "timed_text", "timedtext", "3gpp-tt", "srt", "webvtt", "wvtt", "stpp", "ttml",
+            "avc", "avc1", "avc3", "h.264", "h-264", "h_264", "x264", "mpeg4-avc", "AVC", "H.264", "libx264",
+            "hevc", "hev1", "hvc1", "h.265", "h-265", "h_265", "x265", "HEVC", "H265", "H.265", "libx265",
+            "vp09", "vp8", "vp08", "VP9", "vp9.0", "vp9 ", " vp9", "libvpx-vp9", "av1", "av01",
+            "mp4a", "mp4a.40.2", "aac_lc", "aac-lc", "aaclc", "AAC", "he-aac", "aac_he", "libfdk_aac", "mp3", "opus", "ac-3", "ac3", "ec-3", "flac", "alac", "pcm",
+            "video", "audio", "Video", "Audio", "vide ", "soun ", "sound", "VideoHandler", "SoundHandler", "SubtitleHandler", "hint", "meta", "tmcd", "clcp", "sdsm", "odsm",
+            "h264\n", "h265\n", "aac\n", "ttxt ", " ttxt", "ttxt\t", "h2645", "h26", "vp", "aa", "ttx",
+        ];
+        for s in dictionary {
+            check_str(&mut rep, s);
+            n += 1;
+        }
+        rep.add("kind_strings_from_dictionary", dictionary.len() as u64);
         for (t, code, name) in [
             (TrackType::Video, b"vide", "Video"),
             (TrackType::Audio, b"soun", "Audio"),
